@@ -27,12 +27,14 @@ ONE = 'one'
 OPEN_STATEMENTS = [
     'weight_two_segment_code valid on its whole domain: FALSE on the current tree (known finding C09-w2seg-decoder); '
     'proved on 13 of the 15 vectors (weight_two_segment_code_valid_partial)',
-    'binary_code_transform_sound is proved for one term of the Hamiltonian between encoded states (any product of ladder operators, induction over '
-    'the reversed term: binary_code_transform_term_sound + bct_hypotheses_from_validity + update_operator_sound; the flipped '
-    'qubit state is the encoding of the image: encoding_identity, binary_code_transform_term_encoded), for the '
-    'tolerance-free Model; not proved: the summation over the terms of the Hamiltonian with compress(), the regime where __isub__ / += drop a '
-    'non-zero coefficient below 1e-8, and bct_jw_eq_jw / bct_bk_eq_bk term for term (covered by the transform stream: Model '
-    'correspondence + Spec oracle on every encoded domain state + term-for-term comparison with jordan_wigner / bravyi_kitaev)',
+    'binary_code_transform_sound is proved for the tolerance-free Model (binary_code_transform_sound: for a code valid on a set '
+    'of occupation vectors and a Hamiltonian whose terms map that set to itself, <e(u)| R |e(v)> = <u| h |v>; pieces: '
+    'binary_code_transform_term_sound, bct_hypotheses_from_validity, update_operator_sound, encoding_identity, '
+    'binary_code_transform_term_encoded, binary_code_transform_sum); not proved: the structural hypotheses (decoder components '
+    'are polynomials without empty monomials) for the built-in constructors in general, the regime where __isub__ / += / '
+    'compress() drop a non-zero coefficient below 1e-8, and bct_jw_eq_jw / bct_bk_eq_bk term for term (covered by the transform '
+    'stream: Model correspondence + Spec oracle on every encoded domain state + term-for-term comparison with jordan_wigner / '
+    'bravyi_kitaev)',
     'Shaped for the built-in constructors other than through init_shaped: covered by the codes stream only (both constructors '
     'of BinaryPolynomial are proved: string_constructor_sound, tuple_constructor_sound)',
 ]
